@@ -100,7 +100,10 @@ func (ts *Timers) Start(ctx context.Context) error {
 
 func (ts *Timers) add(ctx context.Context, e *TimerEntry) error {
 	if _, have := ts.Map[e.Id]; have {
-		return ts.cancel(ctx, e.Id)
+		// A new timer replaces a pending one with the same id.
+		if err := ts.cancel(ctx, e.Id); err != nil {
+			return err
+		}
 	}
 
 	ts.Map[e.Id] = e
